@@ -321,6 +321,20 @@ def r1_rewrite(C, rep, rid):
                 ft = lib.bool_edge_targets(b, c.target) if c.target is not None and b.term(c.target)["k"] == "switch" else None
                 if ft:
                     edges.append((c.target, ft[1]))
+                    continue
+                # the test's result is not branched on directly but returned / moved (`a.is_some() || b.is_some()` as the
+                # value of a predicate helper): the branch is the later switch whose operand can be this very result
+                for W in sorted(b.reachable):
+                    if b.term(W)["k"] != "switch":
+                        continue
+                    cw = lib.decode_switch(b, W)
+                    if cw is None or cw.kind != "bool" or cw.place is None:
+                        continue
+                    srcs = lib.bool_sources_of_place(b, cw.place)
+                    if srcs and (None, c.bb) in srcs:
+                        ftw = lib.bool_edge_targets(b, W)
+                        if ftw and ftw[0] != ftw[1]:
+                            edges.append((W, ftw[0] if cw.negated else ftw[1]))
             unreachable = bi not in b.reach([0], removed_edges=edges) if edges else False
             rep.ob(rid, okg and unreachable, fn, "rewrite only when parsed metadata has 33001 or 33003", where=loc(s["sp"]), how="guards: Ok(parse) and is_some(get(33001)) or is_some(get(33003))",
                    detail="" if okg and unreachable else "payload rewrite is not confined to metadata that parsed and contains a trampoline record")
